@@ -110,9 +110,12 @@ func discharge(o *Obligation, dir string, timeoutS int, idx int) {
 	if o.isCover {
 		want, bad = "sat", "unsat"
 	}
+	if o.isCover && timeoutS > 3 {
+		timeoutS = 3 // vacuity covers: a quick look only; "unknown" is recorded as inconclusive
+	}
 	res, text, secs := runSolver(solvers[0], q, dir, tag, timeoutS)
 	o.Result, o.Solver, o.Secs, o.Raw = res, solvers[0].name, secs, text
-	if res == want || res == bad {
+	if res == want || res == bad || o.isCover {
 		if res == "sat" {
 			o.Model = text
 		}
@@ -182,6 +185,66 @@ func dischargeParts(o *Obligation, dir string, timeoutS int, idx int) {
 	}
 }
 
+// retryFailed: an obligation that did not come back unsat under load is tried once more on an idle machine with
+// three times the time and all solvers at once, before it is reported.
+func retryFailed(obls []*Obligation, dir string, timeoutS int) {
+	for i, o := range obls {
+		if o.isCover || o.Result == "unsat" {
+			continue
+		}
+		targets := []*Obligation{o}
+		if o.parts != nil {
+			targets = nil
+			for _, p := range o.parts {
+				if p.Result != "unsat" {
+					targets = append(targets, p)
+				}
+			}
+		}
+		allOK := true
+		for k, t := range targets {
+			q := t.query(true, false)
+			type ans struct {
+				res, text, name string
+				secs           float64
+			}
+			ch := make(chan ans, len(solvers))
+			for _, sd := range solvers {
+				go func(sd solverDef) {
+					r, tx, s := runSolver(sd, q, dir, fmt.Sprintf("r%04d_%d", i, k), timeoutS*3)
+					ch <- ans{r, tx, sd.name, s}
+				}(sd)
+			}
+			ok := false
+			for range solvers {
+				a := <-ch
+				if a.res == "unsat" && !ok {
+					ok = true
+					t.Result, t.Solver = "unsat", a.name
+					t.Secs += a.secs
+				}
+			}
+			if !ok {
+				allOK = false
+			}
+		}
+		if allOK {
+			o.Result = "unsat"
+			o.Retried = true
+			if o.parts != nil {
+				o.Solver = "z3-new"
+				for _, p := range o.parts {
+					if p.Solver != "z3-new" {
+						o.Solver = p.Solver
+					}
+				}
+			} else {
+				o.Solver = targets[0].Solver
+			}
+		}
+	}
+}
+
 func dischargeAll(obls []*Obligation, dir string, timeoutS, workers int) {
 	var wg sync.WaitGroup
 	ch := make(chan int)
@@ -199,4 +262,5 @@ func dischargeAll(obls []*Obligation, dir string, timeoutS, workers int) {
 	}
 	close(ch)
 	wg.Wait()
+	retryFailed(obls, dir, timeoutS)
 }
